@@ -291,7 +291,7 @@ def ob_multilocation_handler(env):
     class E:
         @eqm.Equilibrium.handleMultiLocationArray
         def fn(self, a, b):
-            calls.append(a.shape)
+            calls.append(getattr(a, "shape", None))
             return a + 2 * b
 
     with sym_numpy(env, mla_mod):
